@@ -141,6 +141,7 @@ func (vc *VC) runTop() {
 		}
 		vc.setHeap(fr.st, lockW, lockSort, lw)
 		vc.setHeap(fr.st, lockR, lockSort, lr)
+		vc.setHeap(fr.st, lockRel, lockSort, "((as const (Array Int Int)) 0)")
 		fr.entry = fr.st.clone()
 		env = fr.specEnvEntry()
 	}
@@ -223,6 +224,10 @@ func (vc *VC) runTop() {
 	}
 	penv := fr.specEnvExit(results)
 	for i, c := range fc.Ensures {
+		if c.Kind == "trustedensures" {
+			vc.externals["trusted postcondition of "+relFuncName(fn)+" (assumed at its call sites, not proved): "+c.Text] = true
+			continue
+		}
 		t, err := fr.evalSpecBool(c.Expr, penv)
 		if err != nil {
 			vc.specError(fr, c, err)
@@ -650,6 +655,9 @@ func (fr *Frame) contractCall(fc *FuncContract, callee *ssa.Function, args []*Va
 			continue
 		}
 		vc.assume(fr.reach, t)
+		if c.Kind == "trustedensures" {
+			vc.externals["trusted postcondition of "+name+" (assumed, not proved): "+c.Text] = true
+		}
 	}
 	if callee != nil && fn0Recv(callee) {
 		for _, c := range vc.typeInvsFor(callee.Params[0].Type()) {
@@ -680,10 +688,39 @@ func (vc *VC) callerProps(c *Clause) []string {
 		// `requires[Cxx]`: the precondition supports only Cxx; call sites owe it only under Cxx
 		return c.Props
 	}
+	var ps []string
 	if fc := vc.eng.contractOf(vc.fn); fc != nil {
-		return fc.Props
+		ps = fc.Props
+	} else {
+		ps = c.Props
 	}
-	return c.Props
+	if isLockPrecondition(c) {
+		// "call me with the lock held" is part of the lock discipline: every call site owes it under C09
+		ps = append(append([]string{}, ps...), "C09")
+	}
+	return ps
+}
+
+// isLockPrecondition: the clause is `held(x)` / `rheld(x)` (possibly a conjunction of such).
+func isLockPrecondition(c *Clause) bool {
+	if c == nil || c.Kind != "requires" {
+		return false
+	}
+	var ok func(e ast.Expr) bool
+	ok = func(e ast.Expr) bool {
+		switch x := e.(type) {
+		case *ast.ParenExpr:
+			return ok(x.X)
+		case *ast.BinaryExpr:
+			return x.Op == token.LAND && ok(x.X) && ok(x.Y)
+		case *ast.CallExpr:
+			if id, isId := x.Fun.(*ast.Ident); isId {
+				return id.Name == "held" || id.Name == "rheld"
+			}
+		}
+		return false
+	}
+	return ok(c.Expr)
 }
 
 // modTarget is a resolved `modifies` entry.
